@@ -92,6 +92,9 @@ enum GenKind {
     Population,
     /// `Vec<()>`: zero-sized elements (a collection whose capacity says nothing about the requested size)
     VecUnit,
+    /// `Bitstring::random(size)` / `Bitstring::random_with_probability(size, p)`: the direct constructors (no
+    /// element generator to observe: only "exactly the configured size" is decided here, the law is C12's)
+    BitsRandom,
 }
 
 #[derive(Serialize, Deserialize, Clone, Debug)]
@@ -530,6 +533,20 @@ fn exec_gen(kind: GenKind, size: usize, inner: usize, by_ref: bool, spec: &RngSp
                 };
                 (vec![v.len()], v, None)
             }
+            GenKind::BitsRandom => {
+                let b: Bitstring = match inner % 4 {
+                    0 => Bitstring::random(size, &mut rng),
+                    1 => Bitstring::random_with_probability(size, 0.5, &mut rng),
+                    2 => Bitstring::random_with_probability(size, 0.0, &mut rng),
+                    _ => Bitstring::random_with_probability(size, 1.0, &mut rng),
+                };
+                let exact = match inner % 4 {
+                    2 => b.bits.iter().any(|x| *x).then(|| "random_with_probability(_, 0.0) produced a set bit".to_string()),
+                    3 => b.bits.iter().any(|x| !*x).then(|| "random_with_probability(_, 1.0) produced a clear bit".to_string()),
+                    _ => None,
+                };
+                (vec![b.bits.len()], Vec::new(), exact)
+            }
             GenKind::VecUnit => {
                 probe.limit.set(size + 16);
                 let v: Vec<()> = if by_ref {
@@ -619,9 +636,9 @@ fn exec_gen(kind: GenKind, size: usize, inner: usize, by_ref: bool, spec: &RngSp
             format!("{site}: requested size {size} (inner {inner}); produced collection sizes {shape:?}"),
         ));
     }
-    let expected_total: usize = if nested { size * inner } else { size };
+    let expected_total: usize = if nested { size * inner } else if kind == GenKind::BitsRandom { 0 } else { size };
     let as_seen: Vec<u32> = match kind {
-        GenKind::VecU32 | GenKind::Nested | GenKind::VecUnit => log.clone(),
+        GenKind::VecU32 | GenKind::Nested | GenKind::VecUnit | GenKind::BitsRandom => log.clone(),
         GenKind::Bits | GenKind::Individual | GenKind::Population => log.iter().map(|x| x & 1).collect(),
         GenKind::Plushy => log.iter().map(|x| if x % 5 == 4 { u32::MAX } else { *x }).collect(),
     };
@@ -644,7 +661,11 @@ fn exec_gen(kind: GenKind, size: usize, inner: usize, by_ref: bool, spec: &RngSp
         ));
     }
     if let Some(m) = extra {
-        v.push(Violation::new("individual-scored-from-its-genome", format!("score:{site}"), m));
+        if kind == GenKind::BitsRandom {
+            v.push(Violation::new("elements-drawn-from-the-element-generator", format!("endpoint:{site}"), format!("{site} size {size}: {m}")));
+        } else {
+            v.push(Violation::new("individual-scored-from-its-genome", format!("score:{site}"), m));
+        }
     }
     if expected_total >= 2 {
         obs.nontrivial(mix(mix(mix(kind as u64, size as u64), inner as u64), u64::from(by_ref)));
@@ -753,7 +774,7 @@ impl Check for C18 {
                 rng,
             }
         } else {
-            let kind = *g.pick(&[GenKind::VecU32, GenKind::Bits, GenKind::Plushy, GenKind::Nested, GenKind::Individual, GenKind::Population, GenKind::VecUnit]);
+            let kind = *g.pick(&[GenKind::VecU32, GenKind::Bits, GenKind::Plushy, GenKind::Nested, GenKind::Individual, GenKind::Population, GenKind::VecUnit, GenKind::BitsRandom]);
             let nested = matches!(kind, GenKind::Nested | GenKind::Population);
             let size = match g.below(6) {
                     0 => 0,
